@@ -317,6 +317,7 @@ pub fn right_span(i: u64) -> (r: u64)
 { unimplemented!() }
 #[verifier::external_body]
 pub fn left_span(i: u64) -> (r: u64)
-    ensures i % 2 == 0 ==> r == i, r <= i
+    requires i < 0x2000_0000_0000_0000
+    ensures i % 2 == 0 ==> r == i, r <= i, r % 2 == 0
 { unimplemented!() }
 } // mod flat_tree
